@@ -58,7 +58,9 @@ Bad(c) ==
          IF Resolves(c.nb, c.nr) # (c.res = "ok") THEN "class-lookup"
          ELSE IF c.res = "ok" /\ ~c.right THEN "class-lookup-wrong-class" ELSE ""
     [] c.c = "legacy" ->
-         IF c.old # c.new THEN "legacy-key-" \o c.key ELSE ""
+         \* both spellings configure the same session, and what they configure is what the configuration says
+         IF c.old # c.new THEN "legacy-key-" \o c.key
+         ELSE IF <<c.old[5], c.old[6]>> # c.want THEN "legacy-key-not-what-was-configured-" \o c.key ELSE ""
     [] OTHER -> "unknown-case"
 
 Verdict(h) ==
